@@ -102,10 +102,31 @@ Theorem C13_tracking_semantics :
   mem r (c_tracked (conns (fst (step cf st (Req c t (Track r)))) c)) = true /\
   mem r (c_tracked (conns (fst (step cf st (Req c t (Untrack r)))) c)) = false /\
   (forall r', r' <> r ->
-     mem r' (c_tracked (conns (fst (step cf st (Req c t (Track r)))) c)) = mem r' (c_tracked (conns st c)) /\
-     mem r' (c_tracked (conns (fst (step cf st (Req c t (Untrack r)))) c)) = mem r' (c_tracked (conns st c))).
+     mem r' (c_tracked (conns (fst (step cf st (Req c TPlain (Track r)))) c)) = mem r' (c_tracked (conns st c)) /\
+     mem r' (c_tracked (conns (fst (step cf st (Req c TPlain (Untrack r)))) c)) = mem r' (c_tracked (conns st c))).
 Proof. exact tracking_semantics. Qed.
 Print Assumptions C13_tracking_semantics.
+
+(* A resource tracked by a CONSTRUCTOR while a request is served belongs to that request's connection (and, by
+   C13_others_state_unchanged, to no other): a session-mode class constructs on the first request of the connection
+   that needs it and never again; a percall class on every request. *)
+Theorem C13_ctor_tracking :
+  forall (cf : config) (st : state) (c : conn) (r : res) (a : action),
+  active (conns st c) = true ->
+  (c_inst (conns st c) = false ->
+     mem r (c_tracked (conns (fst (step cf st (Req c (TSession (Some r)) Nop))) c)) = true /\
+     c_inst (conns (fst (step cf st (Req c (TSession (Some r)) a))) c) = true) /\
+  (c_inst (conns st c) = true ->
+     conns (fst (step cf st (Req c (TSession (Some r)) Nop))) c = conns st c) /\
+  mem r (c_tracked (conns (fst (step cf st (Req c (TPercall (Some r)) Nop))) c)) = true.
+Proof. exact ctor_tracking. Qed.
+Print Assumptions C13_ctor_tracking.
+
+(* Tie to the source: Daemon.handleRequest binds the call context to the connection before the target instance is
+   constructed. *)
+Theorem C13_source_context_bound_before_construction : ctx_client_bound_before_construction = true.
+Proof. exact source_context_bound_first. Qed.
+Print Assumptions C13_source_context_bound_before_construction.
 
 (* By design (both servers): a refused handshake closes the socket and does not run the hook. *)
 Theorem C13_source_reject_no_hook :
@@ -116,21 +137,21 @@ Print Assumptions C13_source_reject_no_hook.
 
 (* Non-vacuity (stated without reference to the ORDER of the cleanup actions, which differs between the servers
    and may change harmlessly): two connections on the thread server (pool 3); connection 0 tracks resources 1 and 2
-   (one through its session instance), untracks 2, then the client closes at byte 17 of a request; connection 1
+   (one through its session instance, whose constructor tracks resource 4), untracks 2, then the client closes at byte 17 of a request; connection 1
    tracks 1 and stays open.  Connection 0 is accepted and ended; the trace is hook, socket, close of resource 1,
    slot for connection 0 and nothing else; connection 1 is untouched and still tracks resource 1. *)
 Example C13_nonvacuous :
-  let evs := [Connect 0 true; Connect 1 true; Req 0 TSession (Track 1); Req 0 TPlain (Track 2); Req 1 TPlain (Track 1);
+  let evs := [Connect 0 true; Connect 1 true; Req 0 (TSession (Some 4)) (Track 1); Req 0 TPlain (Track 2); Req 1 TPlain (Track 1);
               Req 0 TPlain (Untrack 2); End 0 (EAbrupt 17 None)] in
   let st := fst (run (cfg true 3) evs) in let tr := snd (run (cfg true 3) evs) in
   c_acc (conns st 0) = true /\ c_ended (conns st 0) = true /\
   count (DisconnectHook 0) tr = 1 /\ count (SockClosed 0) tr = 1 /\ count (ResClose 0 1) tr = 1 /\
-  count (ResClose 0 2) tr = 0 /\ count (SlotReleased 0) tr = 1 /\ length tr = 4 /\ for_conn 1 tr = [] /\
+  count (ResClose 0 4) tr = 1 /\ count (ResClose 0 2) tr = 0 /\ count (SlotReleased 0) tr = 1 /\ length tr = 5 /\ for_conn 1 tr = [] /\
   c_ended (conns st 1) = false /\ c_tracked (conns st 1) = [1] /\ slots st = 1.
 Proof. vm_compute. repeat split. Qed.
 (* ... and on the multiplex server a security error ends connection 0 while a timeout elsewhere does not touch it *)
 Example C13_nonvacuous_mux :
-  let evs := [Connect 0 true; Connect 1 true; Req 0 TSession (Track 3); Timeout 1 5; Raise 0 TPlain FSecurity] in
+  let evs := [Connect 0 true; Connect 1 true; Req 0 (TSession None) (Track 3); Timeout 1 5; Raise 0 TPlain FSecurity] in
   let st := fst (run (cfg false 0) evs) in let tr := snd (run (cfg false 0) evs) in
   let st1 := fst (run (cfg false 0) (firstn 4 evs)) in let tr1 := snd (run (cfg false 0) (firstn 4 evs)) in
   c_ended (conns st1 1) = true /\ c_ended (conns st1 0) = false /\ for_conn 0 tr1 = [] /\ c_tracked (conns st1 0) = [3] /\
